@@ -1,4 +1,5 @@
 import FxVerif.Model.C17
+import FxVerif.Model.C17Machine
 import FxVerif.Model.Util
 /-! line-protocol driver for the C17 models: `lake env lean --run Driver/C17.lean < ops.txt`
 
@@ -7,7 +8,18 @@ ops:
   `delta` of `BridgeValidators.PowerDiff` holds before the division by 2^32-1;
 * `supportchains <names,…>` — the registered chain names in any order; answers the sorted list (`GetSupportChains`);
 * `batchfees <token:fee:amount;…>` — the unbatched pool in any order; answers what `GetAllBatchFees` returns: per token
-  the summed fee, summed amount and tx count, sorted by token (`token:fees:amount:count,…`).
+  the summed fee, summed amount and tx count, sorted by token (`token:fees:amount:count,…`);
+* `batchfeesmax <maxElements> <token:baseFee,…|-> <token:fee:amount;…|->` — the unbatched pool in STORE ITERATION order;
+  answers `GetAllBatchFees(ctx, maxElements, minBatchFees)` computed by the machine model (`createBatchFees` with the
+  per-token limit and the base-fee filter, then the scheduled range + sort);
+* `tallyop <y:a:n:v:t> | <y:a:n:v:t;…|->` — gov `Tally`: the vector accumulated while walking the votes, and one contribution
+  vector per bonded validator that voted (raw 18-decimal integers); answers the four tallied options truncated to
+  integers, computed by the machine model's `tally` op (sum in schedule order);
+* `f64add <a> <b>` — answers `round53 (round53 a + round53 b)`: the integer value of `float64(a) + float64(b)` (validation of
+  the binary64 model `round53` / `fadd` against the machine's float unit);
+* `updateoracles <addr:power:online:delegate,…|-> | <old proposal a,b,…|-> | <new a,b,…|->` — `UpdateProposalOracles` on
+  a state with these oracles (store order) and this stored proposal; answers `err:<kind>` or `ok:<unbonded addresses in
+  unbonding order|->` (the machine model with the identity schedule and the regenerated order source).
 -/
 open FxVerif FxVerif.Util FxVerif.Model.C17
 
@@ -32,9 +44,55 @@ def showFees (fs : List (String × Nat × Nat × Nat)) : String :=
   if fs.isEmpty then "-" else
   ",".intercalate (fs.map fun e => s!"{e.1}:{e.2.1}:{e.2.2.1}:{e.2.2.2}")
 
+def parseList (w : String) : List String := if w == "-" then [] else w.splitOn ","
+
+def parseOracle (e : String) : Option Oracle :=
+  match e.splitOn ":" with
+  | [a, p, o, d] =>
+    match p.toNat?, d.toNat? with
+    | some p, some d => some ⟨a, p, o == "1", d⟩
+    | _, _ => none
+  | _ => none
+
+def emptySt (os : List Oracle) (old : List String) : St := ⟨os, old, 1, [], [], 0⟩
+
+def showList (l : List String) : String := if l.isEmpty then "-" else ",".intercalate l
+
 def step (st : Unit) (line : String) : Unit × String :=
   match words line with
   | "reset" :: _ => (st, "ok")
+  | ["tallyop", base, "|", vs] =>
+    let parseVec (w : String) : Option Vec5 :=
+      match (w.splitOn ":").mapM String.toNat? with
+      | some [y, a, n, v, t] => some (y, a, n, v, t)
+      | _ => none
+    match parseVec base, (if vs == "-" then some [] else (vs.splitOn ";").mapM parseVec) with
+    | some b, some l =>
+      match (exec Sched.id (emptySt [] []) (.tally ((b :: l).map fun v => ("", v)))).2 with
+      | .tally r =>
+        let p := 10 ^ 18
+        (st, s!"{r.1 / p}:{r.2.1 / p}:{r.2.2.1 / p}:{r.2.2.2.1 / p}")
+      | _ => (st, "bad-op")
+    | _, _ => (st, "bad-op")
+  | ["f64add", a, b] =>
+    match a.toNat?, b.toNat? with
+    | some a, some b => (st, toString (fadd (round53 a) (round53 b)))
+    | _, _ => (st, "bad-op")
+  | ["updateoracles", os, "|", old, "|", new] =>
+    match (parseList os).mapM parseOracle with
+    | some os =>
+      match (exec Sched.id (emptySt os (parseList old)) (.updateOracles (parseList new))).2 with
+      | .err e => (st, "err:" ++ e)
+      | .unbonded l => (st, "ok:" ++ showList (l.map (·.1)))
+      | _ => (st, "bad-op")
+    | none => (st, "bad-op")
+  | ["batchfeesmax", mx, base, pool] =>
+    match mx.toNat?, parsePairs base, (if pool == "-" then some [] else (pool.splitOn ";").mapM parseFee) with
+    | some mx, some base, some es =>
+      match (exec Sched.id (emptySt [] []) (.batchFees (es.map fun e => ⟨e.1, e.2.1, e.2.2⟩) mx base)).2 with
+      | .fees fs => (st, showFees fs)
+      | _ => (st, "bad-op")
+    | _, _, _ => (st, "bad-op")
   | ["powerdiff", b, "|", c] =>
     match parsePairs b, parsePairs c with
     | some b, some c => (st, toString (powerDiffNumerator b c))
